@@ -226,6 +226,21 @@ def renderings(draw, toks):
                 if flip and len(flip) < 2 * len(pairs):
                     rs.append({"kind": "optional/bracket-style-per-pair",
                                "argv": [" ".join(swap[t] if i in flip else t for i, t in enumerate(toks))]})
+    # no blanks around arithmetic signs in the select list (`size+1` is `size + 1`, whatever the column is called)
+    lows0 = [t.lower() for t in toks]
+    stop0 = min([lows0.index(k) for k in ("from", "where", "order", "group", "limit", "into") if k in lows0] or [len(toks)])
+    if any(t in ("+", "*", "/", "%") for t in toks[:stop0]):
+        glued = []
+        for i, t in enumerate(toks):
+            if i < stop0 and t in ("+", "*", "/", "%") and glued and i + 1 < stop0:
+                glued[-1] = glued[-1] + t
+                glued.append(None)
+            elif glued and glued[-1] is None:
+                glued[-2] = glued[-2] + t
+                glued.pop()
+            else:
+                glued.append(t)
+        rs.append({"kind": "optional/no-blanks-around-arithmetic", "argv": [" ".join(g for g in glued if g is not None)]})
     # explicit asc after an order key without direction
     if "order" in [t.lower() for t in toks]:
         oi = [t.lower() for t in toks].index("order")
